@@ -763,8 +763,8 @@ int32_t pstm_lshd(pstm_int *a, uint16_t b)
     uint16_t x;
     int32_t res;
 
-    /* If its less than zero return.  */
-    if (b <= 0)
+    /* If its less than zero return.  Zero shifted is zero (keep it clamped). */
+    if (b <= 0 || a->used == 0)
     {
         return PSTM_OKAY;
     }
